@@ -13,7 +13,7 @@ From Coq Require Import List NArith Bool Arith Permutation.
 From SWH.lib Require Import Bytes.
 From SWH Require Import Generated.
 From SWH.model Require Import Frozen.
-From SWH.proofs Require Import FrozenProofs FrozenAliasProofs FrozenEqProofs FrozenMappingProofs FrozenMain.
+From SWH.proofs Require Import FrozenProofs FrozenAliasProofs FrozenEqProofs FrozenMappingProofs FrozenReadProofs FrozenMain.
 From SWH.proofs Require FrozenExamples.
 Import ListNotations.
 Local Open Scope nat_scope.
@@ -170,7 +170,7 @@ Print Assumptions C11_no_alias_refuted_unchecked_field.
 (* the stricter reading of DESIGN section 7 kept visible: a list nested in a
    metadata dict stays shared; mutating the dict itself changes nothing *)
 Theorem C11_nested_shared_example :
-  let s0 := [PyDict [(Ak "a", VRef 1)]; PyList [A "x"]] in
+  let s0 := [PyDict false [(Ak "a", VRef 1)]; PyList [A "x"]] in
   let args := rel_args (VRef 0) VNone EMPTY_BYTES in
   separated 6 s0 [1] Ctor (bs "Release") args = false /\
   separated 6 s0 [0] Ctor (bs "Release") args = true /\
@@ -259,3 +259,74 @@ Theorem C11_copy_pop_refuted_inplace :
   end.
 Proof. exact copy_pop_refuted_inplace. Qed.
 Print Assumptions C11_copy_pop_refuted_inplace.
+
+(* READ OPERATIONS ARE PURE.  [plain s v]: if v is an ImmutableDict, its stored
+   dict is a plain dict (every ImmutableDict made by the current code is; a
+   dict / list / tuple / atom argument satisfies it trivially, WHATEVER dict
+   subclass a dict argument is an instance of).  After building an object of
+   any class by the constructor from any such arguments, no sequence of read
+   operations (k in m, m.get(k), m[k] - on the object or on any of its fields -
+   iteration, len, items(), to_dict(), hash(), ==) changes the store. *)
+Theorem C11_reads_are_pure : forall (Hid : rval -> atom) f rt cls s0 args o s1 reads,
+  Forall (plain s0) args ->
+  construct Hid New f rt cls s0 args = Ok (o, s1) ->
+  run_reads s1 o reads = s1.
+Proof. exact reads_are_pure. Qed.
+Print Assumptions C11_reads_are_pure.
+
+Theorem C11_reads_are_pure_from_dict : forall (Hid : rval -> atom) f cls s0 d args o s1 reads,
+  from_dict_reads s0 cls d = Some args -> Forall (plain s0) args ->
+  from_dict Hid New f cls s0 d = Ok (o, s1) ->
+  run_reads s1 o reads = s1.
+Proof. exact reads_are_pure_from_dict. Qed.
+Print Assumptions C11_reads_are_pure_from_dict.
+
+(* the mapping returned by copy_pop is plain as well *)
+Theorem C11_reads_are_pure_copy_pop : forall f s v k x md s' reads,
+  copy_pop New f s v k = Ok (x, md, s') -> run_reads s' md reads = s'.
+Proof. exact reads_are_pure_copy_pop. Qed.
+Print Assumptions C11_reads_are_pure_copy_pop.
+
+(* one read, stated on the store: a keyed lookup through a plain mapping *)
+Theorem C11_read_pure_step : forall s v fld r,
+  (forall t, read_target v fld = Some t -> plain s t) -> fst (do_read s v fld r) = s.
+Proof. exact do_read_pure. Qed.
+Print Assumptions C11_read_pure_step.
+
+Theorem C11_reads_are_pure_satisfiable :
+  Forall (plain dd_store) ex_args /\
+  match construct ex_Hid New 5 Ctor (bs "Snapshot") dd_store ex_args with
+  | Ok (o, s1) => run_reads s1 o dd_reads = s1 /\ length s1 = 2 /\
+                  do_read s1 o (Some (bs "branches")) (RdGetItem (Ak "missing")) = (s1, Some EKeyError) /\
+                  do_read s1 o (Some (bs "branches")) (RdGetItem (Ak "k1")) = (s1, None)
+  | Err _ => False
+  end.
+Proof. exact reads_are_pure_satisfiable. Qed.
+Print Assumptions C11_reads_are_pure_satisfiable.
+
+(* the mutant ImmutableDict.__init__ that copies with data.copy() (keeps the
+   class of a dict subclass): Snapshot(branches=<defaultdict>) then
+   `k in snapshot.branches` for a missing k inserts k - store, content, hash key
+   change, the id goes stale; idem ImmutableDict(<defaultdict>).get(k).  The
+   current code on the same input: nothing changes. *)
+Theorem C11_reads_pure_refuted_subclass_copy :
+  Forall (plain dd_store) ex_args /\
+  match construct ex_Hid SubclassCopy 5 Ctor (bs "Snapshot") dd_store ex_args with
+  | Ok (o, s1) =>
+      let s2 := run_reads s1 o [(Some (bs "branches"), RdContains (Ak "missing"))] in
+      s2 <> s1 /\ observe ex_Hid ex_Hpy 5 s2 o <> observe ex_Hid ex_Hpy 5 s1 o /\
+      id_ok ex_Hid (resolve 5 s1 o) = true /\ id_ok ex_Hid (resolve 5 s2 o) = false
+  | Err _ => False
+  end /\
+  match construct ex_Hid SubclassCopy 5 Ctor IDICT dd_store [VRef 0] with
+  | Ok (o, s1) =>
+      let s2 := run_reads s1 o [(None, RdGet (Ak "missing"))] in
+      observe ex_Hid ex_Hpy 5 s2 o <> observe ex_Hid ex_Hpy 5 s1 o
+  | Err _ => False
+  end /\
+  match construct ex_Hid New 5 Ctor (bs "Snapshot") dd_store ex_args with
+  | Ok (o, s1) => run_reads s1 o [(Some (bs "branches"), RdContains (Ak "missing"))] = s1
+  | Err _ => False
+  end.
+Proof. exact reads_pure_refuted_subclass_copy. Qed.
+Print Assumptions C11_reads_pure_refuted_subclass_copy.
